@@ -71,7 +71,7 @@ def finish(pid, tier, obs, floors, t0, extra=None, explanation="", assumptions=N
     for line in (info or []):
         print("INFO " + line)
     for o in listed:
-        print(f"KNOWN-FINDING: property={pid} {o.rule} {o.construct} {o.detail} :: {o.msg}")
+        print(f"KNOWN-FINDING: property={pid} {o.rule} {o.construct} {o.detail} :: {o.msg[:220]}")
     replay_dir = os.path.join(VERIF, "evidence", "replay")
     os.makedirs(replay_dir, exist_ok=True)
     for fn in os.listdir(replay_dir):
